@@ -158,7 +158,7 @@ func newExec(w *World, fn *ssa.Function, key string, props []string, discover bo
 	x := &Exec{w: w, em: NewEmitter(), top: fn, trusted: map[string]bool{}, discover: discover,
 		loopMods: map[*ssa.BasicBlock]map[string]bool{}, strConst: map[string]string{}, sumFns: map[string]string{},
 		typeTags: map[string]int{}, ordinals: map[string]int{}, props: props, fnKey: key, sumInst: map[string]bool{},
-		usedContracts: map[string]bool{}, loopRoots: map[*ssa.BasicBlock]map[string][]ssa.Value{}, opaque: map[string]*opaqueInfo{}, bindFail: map[string]bool{}, guardsSeen: map[string]bool{}, resTypes: map[string]types.Type{}}
+		usedContracts: map[string]bool{}, loopRoots: map[*ssa.BasicBlock]map[string][]ssa.Value{}, opaque: map[string]*opaqueInfo{}, bindFail: map[string]bool{}, guardsSeen: map[string]bool{}, resTypes: map[string]types.Type{}, closuresSeen: map[string]bool{}}
 	return x
 }
 
@@ -310,10 +310,36 @@ func (x *Exec) runTop(fn *ssa.Function, c *Contract) {
 	if fn.Signature.Recv() != nil && len(fn.Params) > 0 && kindOf(fn.Params[0].Type()) == KPtr && !c.NilRecvOK {
 		x.em.Assert(sLt("0", fr.vals[fn.Params[0]].Term))
 	}
+	// a closure's contract may mention its creator's parameters: rigid, otherwise unknown values
+	if par := fn.Parent(); par != nil {
+		for _, p := range par.Params {
+			if _, have := fr.params[p.Name()]; !have {
+				v := fr.freshVal("creator."+p.Name(), p.Type())
+				fr.assumeAllocated(v, a0)
+				fr.params[p.Name()] = v
+			}
+		}
+	}
 	env := fr.newEnv()
 	env.contract = c
 	for _, cl := range c.Requires {
 		x.em.Assert(fr.evalBool(cl.Expr, env))
+	}
+	if len(c.Captures) > 0 {
+		// proved where the closure is created (obligations "closure-pre" of the creator)
+		var pc *Contract
+		if fn.Parent() != nil {
+			pc = x.w.contracts[funcKey(fn.Parent())]
+		}
+		if pc == nil {
+			fr.oblige("closure-pre", "creator-not-under-contract", "false", "captures clauses need a contract on the creating function")
+		}
+		for _, cl := range c.Captures {
+			// (a clause that no longer binds is not assumed; evalGuard records the failure)
+			if t := fr.evalGuard(cl, env); t != "false" {
+				x.em.Assert(t)
+			}
+		}
 	}
 	rc := &ReplayCtx{fn: fn, entry: fr.entry, x: x}
 	for _, p := range fn.Params {
